@@ -363,7 +363,21 @@ func errorFlow(r *Run, fn *ssa.Function, decl *FuncInfo) (tols []tolRecord) {
 		for _, b := range fn.Blocks {
 			nn, nb, ok := nilTest(b, al)
 			if !ok {
-				continue
+				// the error tested through a predicate of the module: `if fails(err, ...) { return nil, err }`
+				var pr *errPred
+				var tolerates bool
+				if nn, nb, pr, tolerates, ok = errPredTest(b, al); !ok {
+					continue
+				}
+				if pr.swallows {
+					okAll = false
+					r.Bad("R1", name, con+" swallowed", pos,
+						fmt.Sprintf("the predicate tested at %s answers for some non-nil error as it does for nil (outside the typed unknown-identifier tolerance)", w.Pos(b.Instrs[len(b.Instrs)-1].Pos())))
+				}
+				if tolerates {
+					how = "typed tolerance of *ErrUnknownIdentifier"
+					tols = append(tols, tolRecord{name: name, con: con, pos: pos, decl: decl})
+				}
 			}
 			res := nonNilSide(fn, b, nn, nb, al)
 			for _, v := range res.swallow {
